@@ -292,6 +292,10 @@ class AsyncPolicy:
                 on_attempt_end=on_attempt_end,
                 capture_timeline=capture_timeline,
             )
+        except (asyncio.CancelledError, KeyboardInterrupt, SystemExit):
+            # Never classified, even when the class also derives from Exception;
+            # execute()'s ensure_settled() records the cancel.
+            raise
         except RetryExhaustedError as exc:
             # Propagating errors are recorded exactly as call() records them.
             self._handle_exhausted_call(ctx, exc)
